@@ -967,10 +967,12 @@ pub fn gen_conv(g: &mut G<'_>, o: &ConvOpts) -> Conversation {
     match g.weighted(&[6, 1, 1]) {
         0 => {}
         1 => {
-            c.hs.kind = HsKind::V320 { caps: (g.raw() as u16) & !((CAP_PROTOCOL_41 | CAP_SSL) as u16), max_packet: g.raw() & 0xff_ffff, user: b"verif".to_vec(), tail: vec![0] };
+            c.hs.kind = HsKind::V320 { caps: (g.raw() & CAP_FORMAT_NEUTRAL) as u16, max_packet: g.raw() & 0xff_ffff, user: b"verif".to_vec(), tail: vec![0] };
         }
         _ => {
-            c.hs.kind = HsKind::V41 { caps: (g.raw() | CAP_PROTOCOL_41) & !CAP_SSL, max_packet: g.raw(), charset: g.byte(), user: b"verif".to_vec(), tail: vec![0] };
+            // (only bits that change no packet format: a server that starts honouring, say,
+            // DEPRECATE_EOF for clients that ask for it would rightly answer those differently)
+            c.hs.kind = HsKind::V41 { caps: (g.raw() & CAP_FORMAT_NEUTRAL) | CAP_PROTOCOL_41 | CAP_SECURE_CONNECTION, max_packet: g.raw(), charset: g.byte(), user: b"verif".to_vec(), tail: vec![0] };
             c.hs.reserved = g.bytes(23);
         }
     }
